@@ -63,7 +63,7 @@ def gen(mode, depth, seed, n=0, img="{1, 2, 3}", gkeys="{1, 2}", maxheld=3, tag=
         r = vf.run_tlc(path, cfg=cfg, workers=4, timeout=1500, xmx="6g", tag=tag)
     else:
         r = vf.run_tlc(path, cfg=cfg, workers=4, timeout=900, tag=tag,
-                       extra=["-generate", "num=%d" % max(1, n // 4), "-depth", str(8 * depth + 40), "-seed", str(seed)])
+                       extra=["-generate", "num=%d" % max(1, n), "-depth", str(8 * depth + 40), "-seed", str(seed)])
     seen, behs = set(), []
     for b in r.vf("behaviour"):
         if b in seen:
@@ -170,9 +170,10 @@ def run(prop, args):
     execs = []
     bfs, r = gen("bfs", 3 if quick else 4, args.seed, img="{1, 2}", gkeys="{1}", maxheld=2, tag="lgenb")
     chk.add_tlc(r, "behaviour generation (LifeGen, breadth-first: all behaviours of depth %d)" % (3 if quick else 4))
-    if not quick and len(bfs) > 120000:
-        bfs = rng.sample(bfs, 120000)
-    rnd, r = gen("generate", 25, args.seed, n=400 if quick else 6000)
+    chk.extra["breadth_first_behaviours_generated"] = len(bfs)
+    if len(bfs) > 60000:
+        bfs = rng.sample(bfs, 60000)
+    rnd, r = gen("generate", 25, args.seed, n=300 if quick else 6000)
     chk.add_tlc(r, "behaviour generation (LifeGen, -generate depth 25)")
     chk.sample({"tlc_generated_behaviour": rnd[0][:8]})
     for k, b in enumerate(bfs):
